@@ -11,7 +11,7 @@ from __future__ import annotations
 import time
 
 from vf.checks._values import run_value_case
-from vf.common import Run, main_wrapper, run_pool, seed
+from vf.common import wall_budget, Run, main_wrapper, run_pool, seed
 
 PID = "C02"
 CELLS = ["interval", "triangle", "quadrilateral", "tetrahedron", "hexahedron"]
@@ -115,7 +115,7 @@ def main(tier, replay=None):
         import json
 
         cases = [json.load(open(replay))["replay"]["case"]]
-    budget = 420 if tier == "quick" else 3000
+    budget = wall_budget(tier, 420, 3000)
     results = run_pool("c02", cases, per_case_timeout=300, chunk=3, deadline=time.time() + budget)
     for r in results:
         run.add(r)
